@@ -123,7 +123,7 @@ func draw1(t *tape.Tape, lbl string, allowCCITT, plain bool) (c Case, ok bool) {
 		f.EncodedByteAlign = t.Bool(lbl+".ByteAlign", 1, 3)
 		f.BlackIs1 = t.Bool(lbl+".BlackIs1", 1, 2)
 		f.IgnoreEndOfBlock = t.Bool(lbl+".IgnoreEOB", 1, 3)
-		f.Columns = tape.Pick(t, lbl+".Columns", 0, 1, 2, 7, 8, 9, 16, 17, 33, 64, 100, 1728, 2000)
+		f.Columns = tape.Pick(t, lbl+".Columns", 0, 1, 2, 7, 8, 9, 16, 17, 33, 64, 100, 1728, 2000, 20000, 65536)
 		c.Columns = f.Columns
 		if c.Columns == 0 {
 			c.Columns = 1728
@@ -212,7 +212,20 @@ func Data(t *tape.Tape, lbl string, c *Case, maxLen int) []byte {
 	}
 	st := t.Sub(lbl + ".seed")
 	out := make([]byte, n)
-	switch t.Weighted(lbl+".shape", 3, 2, 3, 2, 2) {
+	wStripes := 0
+	if c.RowBytes > 0 {
+		wStripes = 3
+	}
+	switch t.Weighted(lbl+".shape", 3, 2, 3, 2, 2, wStripes) {
+	case 5: // rows: blank rows alternating with busy ones (every byte a transition)
+		for r := 0; r+c.RowBytes <= n; r += c.RowBytes {
+			if (r/c.RowBytes)%2 == 1 {
+				pat := byte(tape.Pick(t, lbl+".stripe", 0x55, 0x33, 0x0f, 0xaa))
+				for i := r; i < r+c.RowBytes; i++ {
+					out[i] = pat
+				}
+			}
+		}
 	case 0: // random
 		st.Read(out)
 	case 1: // all equal
